@@ -313,6 +313,21 @@ impl ClosestPeersIter {
         // peers to contact, see `num_waiting`).
         let mut result_counter = Some(0);
 
+        // Peers that did not respond within the timeout no longer count towards
+        // the bounded parallelism. They are marked before the capacity is checked:
+        // the loop below stops at the first peer it has to wait for and would
+        // otherwise never reach (and never expire) a timed-out peer further away,
+        // leaving the iterator waiting at capacity forever.
+        for peer in self.closest_peers.values_mut() {
+            if let PeerState::Waiting(timeout) = peer.state
+                && now >= timeout
+            {
+                debug_assert!(self.num_waiting > 0);
+                self.num_waiting -= 1;
+                peer.state = PeerState::Unresponsive
+            }
+        }
+
         // Check if the iterator is at capacity w.r.t. the allowed parallelism.
         let at_capacity = self.at_capacity();
 
